@@ -220,7 +220,9 @@ def writeDictJ (d : Desc) (wj : Wj) (kf vf : Field) (kna vna : List Nat) : List 
   | [] => .ok []
   | .struct [some k, some v] :: es =>
     let key : Except CErr Bytes :=
-      if dictKeyIsString d kf.ty then (match k with | .str s => .ok s | _ => .error .shape)
+      -- string keys: `JSONWriteString(key)`. For a key that is not valid UTF-8 Go emits `{"base64":…}` in key position,
+      -- which is not JSON (finding F1): the model has no tree for it and reports a writer error.
+      if dictKeyIsString d kf.ty then (match k with | .str s => if utf8Valid s then .ok s else .error .shape | _ => .error .shape)
       else match wj kf.ty kna k with
         | .error e => .error e
         | .ok j => match keyTokenBytes j with | some b => .ok b | none => .error .shape
